@@ -104,6 +104,11 @@ class Typer:
                 return T(("dict", self.ann(args[0], m), self.ann(args[1], m)))
             if base in ("Callable", "type", "Type", "Literal"):
                 return EMPTY
+            if base in ("RepeatedCompositeFieldContainer", "RepeatedCompositeContainer"):
+                inner = self.ann(args[0], m)
+                return frozenset(("protorep", a[1]) for a in inner if a[0] == "proto") or T(("protorep", "?"))
+            if base in ("RepeatedScalarFieldContainer", "RepeatedScalarContainer"):
+                return T(("protorepscalar", "?"))
             # user generic class: Tensor[...] etc.
             return self.ann(expr.value, m)
         d = dotted_of(expr)
@@ -513,6 +518,8 @@ class Typer:
                 t = self._obj_type(self.repo.resolve_global(f"{a[1].name}.{attr}"))
                 if t:
                     out |= t
+            elif a[0] == "proto" and a[1] == "?":
+                out.add(("proto", "?"))
             elif a[0] == "proto" and self.schema is not None:
                 msg = self.schema.messages.get(a[1])
                 if msg and attr in msg.fields:
@@ -577,6 +584,20 @@ class Typer:
             return T(("ext", "str"))
         if d == "super":
             return T(("super",))
+        if d == "getattr" and len(e.args) >= 2:
+            bt = self.type_of(f, e.args[0], env)
+            if isinstance(e.args[1], ast.Constant) and isinstance(e.args[1].value, str):
+                t = self.attr_type(bt, e.args[1].value)
+                if t:
+                    return t
+            if any(a[0].startswith("proto") for a in bt):
+                return T(("proto", "?"))
+            return EMPTY
+        if d in ("_get_field",) and len(e.args) == 2:
+            bt = self.type_of(f, e.args[0], env)
+            if isinstance(e.args[1], ast.Constant) and isinstance(e.args[1].value, str):
+                return self.attr_type(bt, e.args[1].value)
+            return EMPTY
         if d in ("typing.cast", "cast") and len(e.args) == 2:
             return self.ann(e.args[0], f.module) or self.type_of(f, e.args[1], env)
         if d in ("copy.copy", "copy.deepcopy") and e.args:
